@@ -403,7 +403,7 @@ def _qr_theta_Y0(
         Y0.legs[1] = Y0.legs[1].to_LegCharge()
         Y0.ireplace_label('(p1.vR)', 'vR')
         if any(old_qtotal_R != 0):
-            Y0.gauge_total_charge('vR', old_qtotal_L)
+            Y0 = Y0.gauge_total_charge('vR', old_qtotal_L)
         vR_old = old_bond_leg
         if not vR_old.is_blocked():
             vR_old = vR_old.sort()[1]
@@ -415,7 +415,7 @@ def _qr_theta_Y0(
         Y0.legs[0] = Y0.legs[0].to_LegCharge()
         Y0.ireplace_label('(vL.p0)', 'vL')
         if any(old_qtotal_L != 0):
-            Y0.gauge_total_charge('vL', old_qtotal_R)
+            Y0 = Y0.gauge_total_charge('vL', old_qtotal_R)
         vL_old = old_bond_leg
         if not vL_old.is_blocked():
             vL_old = vL_old.sort()[1]
@@ -429,18 +429,15 @@ def _qr_theta_Y0(
     sizes_old = v_old.get_block_sizes()
     sizes_new = v_new.get_block_sizes()
 
-    # iterate over charge blocks in vL(R)_new and vL(R)_old at the same time
-    j_old = 0
-    q_old = v_old.charges[j_old, :]
+    # iterate over charge blocks in vL(R)_new and look up the block of the same charge in vL(R)_old
+    # (`v_old` is blocked, so every charge appears once; `v_new` need not be sorted after the gauging above)
+    old_block = {tuple(q): j for j, q in enumerate(v_old.charges)}
     qdata_order = np.argsort(Y0._qdata[:, q_axis])
     qdata_idx = 0
     for j_new, q_new in enumerate(v_new.charges):
-        if all(q_new == q_old):  # have charge block in both v_new and v_old
+        j_old = old_block.get(tuple(q_new))
+        if j_old is not None:  # have charge block in both v_new and v_old
             s_new = sizes_old[j_old] + increase_per_block
-            # move to next charge block in next loop iteration
-            j_old += 1
-            if j_old < len(v_old.charges):
-                q_old = v_old.charges[j_old, :]
         else:  # charge block only in v_new
             s_new = increase_per_block
         s_new = min(s_new, sizes_new[j_new])  # don't go beyond block
